@@ -418,13 +418,16 @@ pub fn eval_root(c: &RootCase) -> Outcome {
         }
     }
     // clause 1: legacy parser returns the same content
-    let before = o.fails.len();
     match guard("parse_root", || WmoParser::new().parse_root(&mut Cursor::new(&eff[..]))) {
         Err(f) => o.fails.push(f),
         Ok(Err(e)) => push(&mut o.fails, "root-legacy-parse-error", format!("parse_root rejects the written root: {e}")),
         Ok(Ok(p)) => {
-            cmp_root_legacy(&p, c, &d, &w, &mut o.fails);
-            let content_failed = o.fails.len() > before;
+            let mut found = vec![];
+            cmp_root_legacy(&p, c, &d, &w, &mut found);
+            let content_failed = !found.is_empty();
+            for x in found {
+                push(&mut o.fails, x.signature, x.message);
+            }
             // clause 2: second write is byte-identical (to the first write as produced)
             match write_root_bytes(&p, ver) {
                 Err(f) => o.fails.push(f),
@@ -684,7 +687,7 @@ pub fn eval_group(c: &GroupCase) -> Outcome {
         },
     }
     // clause 3: see past the header defect
-    if let Some(rep) = walk::repair_group(&bytes, &w) {
+    if let Some(rep) = walk::repair_group(&w) {
         o.notes.push("group_cases_compared_on_header_repaired_bytes");
         match guard("parse_wmo", || parse_wmo(&mut Cursor::new(&rep[..]))) {
             Err(f) => o.fails.push(f),
